@@ -7,6 +7,7 @@ pub mod c12;
 pub mod c14;
 pub mod c15;
 pub mod c18;
+pub mod c19;
 pub mod c20;
 pub mod crash;
 pub mod crashchecks;
@@ -32,6 +33,7 @@ pub fn all_checks() -> Vec<Box<dyn driver::Check>> {
         Box::new(c14::C14),
         Box::new(c15::C15),
         Box::new(c18::C18),
+        Box::new(c19::C19),
         Box::new(crashchecks::c01()),
         Box::new(crashchecks::c11()),
         Box::new(faultchecks::C08),
